@@ -249,6 +249,41 @@ def loader_validations():
     return trip, conn, node
 
 
+def parameter_facts():
+    """the parameter factories: names compared in each loop (source order), the throws after each loop (source order)"""
+    c = strip_comments(src("connection_scan_algorithm/src/parameters/common_parameters.cpp"))
+    r = strip_comments(src("connection_scan_algorithm/src/parameters/route_parameters.cpp"))
+    a = strip_comments(src("connection_scan_algorithm/src/parameters/accessibility_parameters.cpp"))
+    cb = function_body(c, r"CommonParameters\s+CommonParameters::createCommonParameter\s*\([^)]*\)\s*")
+    rb = function_body(r, r"RouteParameters\s+RouteParameters::createRouteODParameter\s*\([^)]*\)\s*")
+    ab = function_body(a, r"AccessibilityParameters\s+AccessibilityParameters::createAccessibilityParameter\s*\([^)]*\)\s*")
+    keys = lambda b: re.findall(r"parameterWithValue\.first\s*==\s*\"(\w+)\"", b)
+    throws = lambda b: re.findall(r"throw\s+ParameterException\(ParameterException::Type::(\w+)\)", b)
+    ck, rk, ak = keys(cb), keys(rb), keys(ab)
+    if len(ck) < 9 or len(rk) < 3 or len(ak) < 1: raise ValueError("parameter loops not recognised (%d, %d, %d names)" % (len(ck), len(rk), len(ak)))
+    # numeric parameters = the names whose branch calls getIntegerValue
+    num = re.findall(r"parameterWithValue\.first\s*==\s*\"(\w+)\"\s*\)\s*\{\s*\w+\s*=\s*CommonParameters::getIntegerValue", cb)
+    # the route / accessibility factories call createCommonParameter AFTER their own loop and validation
+    for b, what in ((rb, "route"), (ab, "accessibility")):
+        i = b.find("createCommonParameter(")
+        if i < 0 or any(m.start() > i for m in re.finditer(r"throw\s+ParameterException", b)): raise ValueError(what + ": createCommonParameter is not the last step")
+    gi = function_body(c, r"int\s+CommonParameters::getIntegerValue\s*\([^)]*\)\s*")
+    full = bool(re.search(r"std::stoi\(\s*strValue\s*,\s*&parsedLength\s*\)", gi)) and bool(re.search(r"parsedLength\s*!=\s*strValue\.size\(\)", gi)) \
+        and bool(re.search(r"catch\s*\(\s*\.\.\.\s*\)\s*\{\s*throw\s+ParameterException\(ParameterException::Type::INVALID_NUMERICAL_DATA\)", gi))
+    return ck, num, throws(cb), rk, throws(rb), ak, throws(ab), full
+
+
+def loader_insert_facts():
+    """how each collection loader stores a record: emplace (the first record of a uuid wins) or operator[] (the last one wins)"""
+    out = []
+    for f, var in (("agencies", "ts"), ("services", "ts"), ("nodes", "ts"), ("lines", "ts"), ("paths", "ts"), ("scenarios", "ts"), ("trips_and_connections", "trips")):
+        t = strip_comments(src("src/%s_cache_fetcher.cpp" % f))
+        em = bool(re.search(r"\b%s\.emplace\(" % var, t)); ix = bool(re.search(r"\b%s\[[^\]]+\]\s*(=|\.)" % var, t))
+        if em == ix: raise ValueError("%s loader: emplace=%s operator[]=%s" % (f, em, ix))
+        out.append((f, "emplace" if em else "assign"))
+    return out
+
+
 def loader_catch_facts():
     """per cache fetcher: the deserialisation is inside try, with a handler for kj::Exception and one for everything else"""
     facts = {}
@@ -404,6 +439,16 @@ def main():
           "def connectionArgs : List String := " + llist(cv),
           "/-- a per-stop file is refused when one of these holds (nodes_cache_fetcher.cpp) -/",
           "def nodeFileValidation : List String := " + llist(nv), ""]
+    pf = guard("parameter-facts", parameter_facts, ([], [], [], [], [], [], [], False))
+    L += ["/-- createCommonParameter: names compared in the loop, the numeric ones, the throws after the loop; the same for the route and accessibility factories; "
+          "getIntegerValue = stoi + full consumption + catch-all -> INVALID_NUMERICAL_DATA -/",
+          "def commonKeys : List String := " + llist(pf[0]), "def commonNumericKeys : List String := " + llist(pf[1]),
+          "def commonThrows : List String := " + llist(pf[2]), "def routeKeys : List String := " + llist(pf[3]), "def routeThrows : List String := " + llist(pf[4]),
+          "def accessKeys : List String := " + llist(pf[5]), "def accessThrows : List String := " + llist(pf[6]),
+          "def integerValueIsFullStoi : Bool := " + ("true" if pf[7] else "false"), ""]
+    li = guard("loader-insert-facts", loader_insert_facts, [])
+    L += ["/-- how each loader stores a record: emplace = the first record of a uuid wins, assign = the last one wins -/",
+          "def loaderInsert : List (String × String) := " + llist(li, lambda x: "(%s, %s)" % (lstr(x[0]), lstr(x[1]))), ""]
     fk, rk = guard("sort-comparators", sort_comparators, ([], []))
     L += ["/-- keys of the two stable sorts of TransitData::generateForwardAndReverseConnections: (getter, operator of the `return true` test), in order -/",
           "def fwdSortKeys : List (String × String) := " + llist(fk, lambda x: "(%s, %s)" % (lstr(x[0]), lstr(x[1]))),
